@@ -1,8 +1,10 @@
 // ===== contracts/spec/settings_toml.rs — property C12: what the documented line shapes of rws.config.toml mean =====
 // file_step (settings.rs) follows the reader step by step.  The lemmas here say what it yields on the shapes the documentation
-// uses - `key = value` with any padding by spaces, the value bare or in single or double quotes, a trailing `# comment`,
+// uses - `key = value` with any padding by spaces and tabs, the value bare or in single or double quotes, a trailing `# comment`,
 // blank and comment-only lines, the `[cors]` header - for EVERY key, value, padding and comment text of that shape.
-pub open spec fn spaces(n: nat) -> Seq<char> { Seq::new(n, |i: int| ' ') }
+// TOML white space: spaces and tabs, in any mix
+pub open spec fn blank(s: Seq<char>) -> bool { forall|i: int| 0 <= i < s.len() ==> #[trigger] s[i] == ' ' || s[i] == '\t' }
+pub open spec fn unblank(s: Seq<char>) -> Seq<char> { without_char(without_char(s, ' '), '\t') }
 // printable ASCII other than the space and the characters the reader treats specially
 pub open spec fn plain_char(c: char) -> bool {
     '!' <= c && c <= '~' && c != '#' && c != '=' && c != '\'' && c != '"' && c != '[' && c != ']'
@@ -11,10 +13,11 @@ pub open spec fn plain(s: Seq<char>) -> bool { forall|i: int| 0 <= i < s.len() =
 // a value may hold '=' as well (the line is split at the first one)
 pub open spec fn plain_value(s: Seq<char>) -> bool { forall|i: int| 0 <= i < s.len() ==> plain_char(#[trigger] s[i]) || s[i] == '=' }
 pub open spec fn quote(q: int) -> Seq<char> { if q == 1 { seq!['\''] } else if q == 2 { seq!['"'] } else { Seq::empty() } }
-pub open spec fn toml_body(a: nat, b: nat, c: nat, d: nat, k: Seq<char>, q: int, v: Seq<char>) -> Seq<char> {
-    spaces(a) + k + spaces(b) + eqs() + spaces(c) + quote(q) + v + quote(q) + spaces(d)
+pub open spec fn toml_body(a: Seq<char>, b: Seq<char>, c: Seq<char>, d: Seq<char>, k: Seq<char>, q: int, v: Seq<char>) -> Seq<char> {
+    a + k + b + eqs() + c + quote(q) + v + quote(q) + d
 }
-pub open spec fn toml_line(a: nat, b: nat, c: nat, d: nat, k: Seq<char>, q: int, v: Seq<char>, comment: Option<Seq<char>>) -> Seq<char> {
+pub open spec fn pads(a: Seq<char>, b: Seq<char>, c: Seq<char>, d: Seq<char>) -> bool { blank(a) && blank(b) && blank(c) && blank(d) }
+pub open spec fn toml_line(a: Seq<char>, b: Seq<char>, c: Seq<char>, d: Seq<char>, k: Seq<char>, q: int, v: Seq<char>, comment: Option<Seq<char>>) -> Seq<char> {
     if comment.is_some() { toml_body(a, b, c, d, k, q, v) + seq!['#'] + comment.unwrap() } else { toml_body(a, b, c, d, k, q, v) }
 }
 // the word such a line stands for: --[table-]key=value with '_' written as '-' in the key
@@ -111,63 +114,111 @@ pub proof fn lemma_no_char_cat(a: Seq<char>, b: Seq<char>, c: char)
     }
 }
 
-// ----- the body of a line -----
-// the body without its spaces
-pub open spec fn packed(k: Seq<char>, q: int, v: Seq<char>) -> Seq<char> { k + eqs() + (quote(q) + v + quote(q)) }
+// ----- white space -----
+pub proof fn lemma_unblank_cat(a: Seq<char>, b: Seq<char>)
+    ensures unblank(a + b) == unblank(a) + unblank(b),
+{
+    lemma_without_cat(a, b, ' ');
+    lemma_without_cat(without_char(a, ' '), without_char(b, ' '), '\t');
+}
+pub proof fn lemma_unblank_blank(s: Seq<char>)
+    requires blank(s),
+    ensures unblank(s) == Seq::<char>::empty(),
+    decreases s.len()
+{
+    if s.len() > 0 {
+        assert(blank(s.drop_last())) by { assert forall|i: int| 0 <= i < s.drop_last().len() implies #[trigger] s.drop_last()[i] == ' ' || s.drop_last()[i] == '\t' by { assert(s.drop_last()[i] == s[i]); } }
+        lemma_unblank_blank(s.drop_last());
+        assert(s =~= s.drop_last() + seq![s.last()]);
+        lemma_unblank_cat(s.drop_last(), seq![s.last()]);
+        let l = seq![s.last()];
+        assert(l.drop_last() =~= Seq::<char>::empty());
+        assert(without_char(l.drop_last(), ' ') =~= Seq::<char>::empty());
+        if s.last() == ' ' {
+            assert(without_char(l, ' ') =~= Seq::<char>::empty());
+        } else {
+            assert(s.last() == '\t');
+            assert(without_char(l, ' ') =~= l);
+            assert(without_char(l.drop_last(), '\t') =~= Seq::<char>::empty());
+            assert(without_char(l, '\t') =~= Seq::<char>::empty());
+        }
+        assert(unblank(l) =~= Seq::<char>::empty());
+    }
+}
+pub proof fn lemma_unblank_id(s: Seq<char>)
+    requires no_char(s, ' '), no_char(s, '\t'),
+    ensures unblank(s) == s,
+{
+    lemma_without_id(s, ' ');
+    lemma_without_id(s, '\t');
+}
+// what trim() takes away is white space, and all white space here is blank: trimming first makes no difference
+pub proof fn lemma_unblank_trim(x: Seq<char>)
+    requires forall|i: int| 0 <= i < x.len() && is_ws(#[trigger] x[i]) ==> x[i] == ' ' || x[i] == '\t',
+    ensures unblank(trim_spec(x)) == unblank(x),
+{
+    axiom_trim(x);
+    let (lo, hi) = choose|lo: int, hi: int| 0 <= lo <= hi <= x.len() && trim_spec(x) == x.subrange(lo, hi)
+        && (forall|i: int| 0 <= i < lo ==> is_ws(#[trigger] x[i])) && (forall|i: int| hi <= i < x.len() ==> is_ws(#[trigger] x[i]));
+    let pre = x.subrange(0, lo); let mid = x.subrange(lo, hi); let post = x.subrange(hi, x.len() as int);
+    assert(x =~= pre + mid + post);
+    assert(blank(pre)) by { assert forall|i: int| 0 <= i < pre.len() implies #[trigger] pre[i] == ' ' || pre[i] == '\t' by { assert(pre[i] == x[i]); } }
+    assert(blank(post)) by { assert forall|i: int| 0 <= i < post.len() implies #[trigger] post[i] == ' ' || post[i] == '\t' by { assert(post[i] == x[hi + i]); } }
+    lemma_unblank_blank(pre); lemma_unblank_blank(post);
+    lemma_unblank_cat(pre, mid); lemma_unblank_cat(pre + mid, post);
+    assert(unblank(x) =~= unblank(mid));
+}
 
-pub proof fn lemma_body_no(a: nat, b: nat, c: nat, d: nat, k: Seq<char>, q: int, v: Seq<char>, x: char)
-    requires plain(k), plain_value(v), x == '#' || x == '\0',
+// ----- the body of a line -----
+// the body without its white space
+pub open spec fn packed(k: Seq<char>, q: int, v: Seq<char>) -> Seq<char> { k + eqs() + (quote(q) + v + quote(q)) }
+// a character of the body is a blank, a character of the key or the value, '=' or a quote
+pub proof fn lemma_body_chars(a: Seq<char>, b: Seq<char>, c: Seq<char>, d: Seq<char>, k: Seq<char>, q: int, v: Seq<char>)
+    requires plain(k), plain_value(v), pads(a, b, c, d),
+    ensures forall|i: int| 0 <= i < toml_body(a, b, c, d, k, q, v).len() ==> {
+        let x = #[trigger] toml_body(a, b, c, d, k, q, v)[i];
+        x == ' ' || x == '\t' || plain_char(x) || x == '=' || x == '\'' || x == '"' },
+{
+    let body = toml_body(a, b, c, d, k, q, v);
+    assert forall|i: int| 0 <= i < body.len() implies ({ let x = #[trigger] body[i]; x == ' ' || x == '\t' || plain_char(x) || x == '=' || x == '\'' || x == '"' }) by {
+        let s1 = a; let s2 = s1 + k; let s3 = s2 + b; let s4 = s3 + eqs(); let s5 = s4 + c; let s6 = s5 + quote(q); let s7 = s6 + v; let s8 = s7 + quote(q);
+        assert(body == s8 + d);
+        if i < s1.len() { assert(body[i] == a[i]); } else if i < s2.len() { assert(body[i] == k[i - s1.len()]); }
+        else if i < s3.len() { assert(body[i] == b[i - s2.len()]); } else if i < s4.len() { assert(body[i] == '='); }
+        else if i < s5.len() { assert(body[i] == c[i - s4.len()]); } else if i < s6.len() { assert(body[i] == quote(q)[i - s5.len()]); }
+        else if i < s7.len() { assert(body[i] == v[i - s6.len()]); }
+        else if i < s8.len() { assert(body[i] == quote(q)[i - s7.len()]); } else { assert(body[i] == d[i - s8.len()]); }
+    }
+}
+pub proof fn lemma_body_no(a: Seq<char>, b: Seq<char>, c: Seq<char>, d: Seq<char>, k: Seq<char>, q: int, v: Seq<char>, x: char)
+    requires plain(k), plain_value(v), pads(a, b, c, d), x == '#' || x == '\0',
     ensures no_char(toml_body(a, b, c, d, k, q, v), x),
 {
-    let body = toml_body(a, b, c, d, k, q, v);
-    assert forall|i: int| 0 <= i < body.len() implies #[trigger] body[i] != x by {
-        let s1 = spaces(a); let s2 = s1 + k; let s3 = s2 + spaces(b); let s4 = s3 + eqs(); let s5 = s4 + spaces(c); let s6 = s5 + quote(q); let s7 = s6 + v; let s8 = s7 + quote(q);
-        assert(body == s8 + spaces(d));
-        if i < s1.len() { } else if i < s2.len() { assert(body[i] == k[i - s1.len()]); }
-        else if i < s3.len() { } else if i < s4.len() { } else if i < s5.len() { } else if i < s6.len() { }
-        else if i < s7.len() { assert(body[i] == v[i - s6.len()]); }
-        else if i < s8.len() { } else { }
-    }
+    lemma_body_chars(a, b, c, d, k, q, v);
 }
-pub proof fn lemma_body_packed(a: nat, b: nat, c: nat, d: nat, k: Seq<char>, q: int, v: Seq<char>)
-    requires plain(k), plain_value(v),
-    ensures without_char(toml_body(a, b, c, d, k, q, v), ' ') == packed(k, q, v),
+pub proof fn lemma_body_packed(a: Seq<char>, b: Seq<char>, c: Seq<char>, d: Seq<char>, k: Seq<char>, q: int, v: Seq<char>)
+    requires plain(k), plain_value(v), pads(a, b, c, d),
+    ensures unblank(toml_body(a, b, c, d, k, q, v)) == packed(k, q, v),
 {
-    let sp = ' ';
-    let s1 = spaces(a); let s2 = s1 + k; let s3 = s2 + spaces(b); let s4 = s3 + eqs(); let s5 = s4 + spaces(c); let s6 = s5 + quote(q); let s7 = s6 + v; let s8 = s7 + quote(q);
-    lemma_without_all(spaces(a), sp); lemma_without_all(spaces(b), sp); lemma_without_all(spaces(c), sp); lemma_without_all(spaces(d), sp);
-    assert(no_char(k, sp)) by { assert forall|i: int| 0 <= i < k.len() implies #[trigger] k[i] != sp by { assert(plain_char(k[i])); } }
-    assert(no_char(v, sp)) by { assert forall|i: int| 0 <= i < v.len() implies #[trigger] v[i] != sp by { assert(plain_char(v[i]) || v[i] == '='); } }
-    assert(no_char(eqs(), sp)); assert(no_char(quote(q), sp));
-    lemma_without_id(k, sp); lemma_without_id(v, sp); lemma_without_id(eqs(), sp); lemma_without_id(quote(q), sp);
-    lemma_without_cat(s1, k, sp); lemma_without_cat(s2, spaces(b), sp); lemma_without_cat(s3, eqs(), sp); lemma_without_cat(s4, spaces(c), sp);
-    lemma_without_cat(s5, quote(q), sp); lemma_without_cat(s6, v, sp); lemma_without_cat(s7, quote(q), sp); lemma_without_cat(s8, spaces(d), sp);
-    assert(without_char(toml_body(a, b, c, d, k, q, v), sp) =~= packed(k, q, v));
+    let s1 = a; let s2 = s1 + k; let s3 = s2 + b; let s4 = s3 + eqs(); let s5 = s4 + c; let s6 = s5 + quote(q); let s7 = s6 + v; let s8 = s7 + quote(q);
+    lemma_unblank_blank(a); lemma_unblank_blank(b); lemma_unblank_blank(c); lemma_unblank_blank(d);
+    assert(no_char(k, ' ') && no_char(k, '\t')) by { assert forall|i: int| 0 <= i < k.len() implies k[i] != ' ' && #[trigger] k[i] != '\t' by { assert(plain_char(k[i])); } }
+    assert(no_char(v, ' ') && no_char(v, '\t')) by { assert forall|i: int| 0 <= i < v.len() implies v[i] != ' ' && #[trigger] v[i] != '\t' by { assert(plain_char(v[i]) || v[i] == '='); } }
+    assert(no_char(eqs(), ' ') && no_char(eqs(), '\t')); assert(no_char(quote(q), ' ') && no_char(quote(q), '\t'));
+    lemma_unblank_id(k); lemma_unblank_id(v); lemma_unblank_id(eqs()); lemma_unblank_id(quote(q));
+    lemma_unblank_cat(s1, k); lemma_unblank_cat(s2, b); lemma_unblank_cat(s3, eqs()); lemma_unblank_cat(s4, c);
+    lemma_unblank_cat(s5, quote(q)); lemma_unblank_cat(s6, v); lemma_unblank_cat(s7, quote(q)); lemma_unblank_cat(s8, d);
+    assert(unblank(toml_body(a, b, c, d, k, q, v)) =~= packed(k, q, v));
 }
-// trimming first makes no difference: everything that is white space in the body is a space
-pub proof fn lemma_body_trim(a: nat, b: nat, c: nat, d: nat, k: Seq<char>, q: int, v: Seq<char>)
-    requires plain(k), plain_value(v),
-    ensures without_char(trim_spec(toml_body(a, b, c, d, k, q, v)), ' ') == packed(k, q, v),
+pub proof fn lemma_body_trim(a: Seq<char>, b: Seq<char>, c: Seq<char>, d: Seq<char>, k: Seq<char>, q: int, v: Seq<char>)
+    requires plain(k), plain_value(v), pads(a, b, c, d),
+    ensures unblank(trim_spec(toml_body(a, b, c, d, k, q, v))) == packed(k, q, v),
 {
     let body = toml_body(a, b, c, d, k, q, v);
+    lemma_body_chars(a, b, c, d, k, q, v);
     axiom_trim(body);
-    let (lo, hi) = choose|lo: int, hi: int| 0 <= lo <= hi <= body.len() && trim_spec(body) == body.subrange(lo, hi)
-        && (forall|i: int| 0 <= i < lo ==> is_ws(#[trigger] body[i])) && (forall|i: int| hi <= i < body.len() ==> is_ws(#[trigger] body[i]));
-    // a white-space character of the body is a space
-    assert forall|i: int| 0 <= i < body.len() && is_ws(#[trigger] body[i]) implies body[i] == ' ' by {
-        let s1 = spaces(a); let s2 = s1 + k; let s3 = s2 + spaces(b); let s4 = s3 + eqs(); let s5 = s4 + spaces(c); let s6 = s5 + quote(q); let s7 = s6 + v; let s8 = s7 + quote(q);
-        assert(body == s8 + spaces(d));
-        if i < s1.len() { } else if i < s2.len() { assert(body[i] == k[i - s1.len()]); assert(plain_char(k[i - s1.len()])); }
-        else if i < s3.len() { } else if i < s4.len() { assert(body[i] == '='); } else if i < s5.len() { }
-        else if i < s6.len() { assert(body[i] == quote(q)[i - s5.len()]); }
-        else if i < s7.len() { assert(body[i] == v[i - s6.len()]); assert(plain_char(v[i - s6.len()]) || v[i - s6.len()] == '='); }
-        else if i < s8.len() { assert(body[i] == quote(q)[i - s7.len()]); } else { }
-    }
-    let pre = body.subrange(0, lo); let mid = body.subrange(lo, hi); let post = body.subrange(hi, body.len() as int);
-    assert(body =~= pre + mid + post);
-    lemma_without_all(pre, ' '); lemma_without_all(post, ' ');
-    lemma_without_cat(pre, mid, ' '); lemma_without_cat(pre + mid, post, ' ');
-    assert(without_char(body, ' ') =~= without_char(mid, ' '));
+    assert forall|i: int| 0 <= i < body.len() && is_ws(#[trigger] body[i]) implies body[i] == ' ' || body[i] == '\t' by { }
+    lemma_unblank_trim(body);
     lemma_body_packed(a, b, c, d, k, q, v);
 }
 pub proof fn lemma_clean_quoted(q: int, v: Seq<char>)
@@ -200,8 +251,8 @@ pub proof fn lemma_clean_quoted(q: int, v: Seq<char>)
 
 // ----- THE SHAPES -----
 // `  key  =  'value'  # comment`: the step adds exactly the word --[table-]key=value (and leaves the table as it is)
-pub proof fn lemma_toml_key_value(st: (Seq<char>, Seq<Seq<char>>), a: nat, b: nat, c: nat, d: nat, k: Seq<char>, q: int, v: Seq<char>, comment: Option<Seq<char>>)
-    requires plain(k), k.len() > 0, plain_value(v), 0 <= q <= 2,
+pub proof fn lemma_toml_key_value(st: (Seq<char>, Seq<Seq<char>>), a: Seq<char>, b: Seq<char>, c: Seq<char>, d: Seq<char>, k: Seq<char>, q: int, v: Seq<char>, comment: Option<Seq<char>>)
+    requires plain(k), k.len() > 0, plain_value(v), 0 <= q <= 2, pads(a, b, c, d),
     ensures
         file_step(st, toml_line(a, b, c, d, k, q, v, comment)) == (st.0, st.1.push(toml_word(st.0, k, v))),
         nn(toml_body(a, b, c, d, k, q, v)),
@@ -220,59 +271,54 @@ pub proof fn lemma_toml_key_value(st: (Seq<char>, Seq<Seq<char>>), a: nat, b: na
     lemma_split_once_first(k, '=', quote(q) + v + quote(q));
     lemma_clean_quoted(q, v);
 }
-// a blank line, a line of spaces, a comment-only line: nothing happens
-pub proof fn lemma_toml_blank(st: (Seq<char>, Seq<Seq<char>>), a: nat, comment: Option<Seq<char>>)
-    ensures file_step(st, if comment.is_some() { spaces(a) + seq!['#'] + comment.unwrap() } else { spaces(a) }) == st,
+// a blank line, a line of white space, a comment-only line: nothing happens
+pub proof fn lemma_toml_blank(st: (Seq<char>, Seq<Seq<char>>), a: Seq<char>, comment: Option<Seq<char>>)
+    requires blank(a),
+    ensures file_step(st, if comment.is_some() { a + seq!['#'] + comment.unwrap() } else { a }) == st,
 {
-    let body = spaces(a);
-    lemma_without_all(body, ' ');
+    lemma_unblank_blank(a);
+    assert(no_char(a, '#'));
     if comment.is_some() {
-        lemma_split_once_first(body, '#', comment.unwrap());
-        axiom_trim(body);
-        let (lo, hi) = choose|lo: int, hi: int| 0 <= lo <= hi <= body.len() && trim_spec(body) == body.subrange(lo, hi)
-            && (forall|i: int| 0 <= i < lo ==> is_ws(#[trigger] body[i])) && (forall|i: int| hi <= i < body.len() ==> is_ws(#[trigger] body[i]));
-        lemma_without_all(body.subrange(lo, hi), ' ');
+        lemma_split_once_first(a, '#', comment.unwrap());
+        lemma_unblank_trim(a);
     } else {
-        lemma_split_once_none(body, '#');
+        lemma_split_once_none(a, '#');
     }
     let e = Seq::<char>::empty();
     lemma_split_once_none(e, '=');
     assert(!has_prefix(e, seq!['[']));
 }
 // `[name]` (padded, possibly commented): the table becomes `name`, no word is added
-pub proof fn lemma_toml_table(st: (Seq<char>, Seq<Seq<char>>), a: nat, d: nat, name: Seq<char>, comment: Option<Seq<char>>)
-    requires plain(name),
-    ensures file_step(st, if comment.is_some() { spaces(a) + seq!['['] + name + seq![']'] + spaces(d) + seq!['#'] + comment.unwrap() } else { spaces(a) + seq!['['] + name + seq![']'] + spaces(d) }) == (name, st.1),
+pub proof fn lemma_toml_table(st: (Seq<char>, Seq<Seq<char>>), a: Seq<char>, d: Seq<char>, name: Seq<char>, comment: Option<Seq<char>>)
+    requires plain(name), blank(a), blank(d),
+    ensures file_step(st, if comment.is_some() { a + seq!['['] + name + seq![']'] + d + seq!['#'] + comment.unwrap() } else { a + seq!['['] + name + seq![']'] + d }) == (name, st.1),
 {
-    let body = spaces(a) + seq!['['] + name + seq![']'] + spaces(d);
+    let body = a + seq!['['] + name + seq![']'] + d;
     let pk = seq!['['] + name + seq![']'];
-    assert forall|i: int| 0 <= i < name.len() implies name[i] != '#' && name[i] != ' ' && name[i] != '=' && name[i] != '[' && #[trigger] name[i] != ']' && !is_ws(name[i]) by { assert(plain_char(name[i])); axiom_trim(name); }
-    assert(no_char(name, '#') && no_char(name, ' ') && no_char(name, '=') && no_char(name, '[') && no_char(name, ']'));
-    lemma_no_char_cat(spaces(a), seq!['['], '#'); lemma_no_char_cat(spaces(a) + seq!['['], name, '#'); lemma_no_char_cat(spaces(a) + seq!['['] + name, seq![']'], '#');
-    lemma_no_char_cat(spaces(a) + seq!['['] + name + seq![']'], spaces(d), '#');
+    axiom_trim(name);
+    assert forall|i: int| 0 <= i < name.len() implies name[i] != '#' && name[i] != ' ' && name[i] != '\t' && name[i] != '=' && name[i] != '[' && #[trigger] name[i] != ']' && !is_ws(name[i]) by { assert(plain_char(name[i])); }
+    assert(no_char(name, '#') && no_char(name, ' ') && no_char(name, '\t') && no_char(name, '=') && no_char(name, '[') && no_char(name, ']'));
+    assert(no_char(a, '#') && no_char(d, '#'));
+    lemma_no_char_cat(a, seq!['['], '#'); lemma_no_char_cat(a + seq!['['], name, '#'); lemma_no_char_cat(a + seq!['['] + name, seq![']'], '#');
+    lemma_no_char_cat(a + seq!['['] + name + seq![']'], d, '#');
     assert(no_char(body, '#'));
-    // without spaces
-    lemma_without_all(spaces(a), ' '); lemma_without_all(spaces(d), ' ');
+    // without white space
+    lemma_unblank_blank(a); lemma_unblank_blank(d);
     lemma_no_char_cat(seq!['['], name, ' '); lemma_no_char_cat(seq!['['] + name, seq![']'], ' ');
-    lemma_without_id(pk, ' ');
-    lemma_without_cat(spaces(a), pk, ' '); lemma_without_cat(spaces(a) + pk, spaces(d), ' ');
-    assert(body =~= spaces(a) + pk + spaces(d));
-    assert(without_char(body, ' ') =~= pk);
+    lemma_no_char_cat(seq!['['], name, '\t'); lemma_no_char_cat(seq!['['] + name, seq![']'], '\t');
+    lemma_unblank_id(pk);
+    lemma_unblank_cat(a, pk); lemma_unblank_cat(a + pk, d);
+    assert(body =~= a + pk + d);
+    assert(unblank(body) =~= pk);
     if comment.is_some() {
         lemma_split_once_first(body, '#', comment.unwrap());
-        axiom_trim(body);
-        let (lo, hi) = choose|lo: int, hi: int| 0 <= lo <= hi <= body.len() && trim_spec(body) == body.subrange(lo, hi)
-            && (forall|i: int| 0 <= i < lo ==> is_ws(#[trigger] body[i])) && (forall|i: int| hi <= i < body.len() ==> is_ws(#[trigger] body[i]));
-        assert forall|i: int| 0 <= i < body.len() && is_ws(#[trigger] body[i]) implies body[i] == ' ' by {
-            let s1 = spaces(a); let s2 = s1 + seq!['[']; let s3 = s2 + name; let s4 = s3 + seq![']'];
-            assert(body == s4 + spaces(d));
-            if i < s1.len() { } else if i < s2.len() { assert(body[i] == '['); } else if i < s3.len() { assert(body[i] == name[i - s2.len()]); } else if i < s4.len() { assert(body[i] == ']'); } else { }
+        assert forall|i: int| 0 <= i < body.len() && is_ws(#[trigger] body[i]) implies body[i] == ' ' || body[i] == '\t' by {
+            let s1 = a; let s2 = s1 + seq!['[']; let s3 = s2 + name; let s4 = s3 + seq![']'];
+            assert(body == s4 + d);
+            if i < s1.len() { assert(body[i] == a[i]); } else if i < s2.len() { assert(body[i] == '['); } else if i < s3.len() { assert(body[i] == name[i - s2.len()]); }
+            else if i < s4.len() { assert(body[i] == ']'); } else { assert(body[i] == d[i - s4.len()]); }
         }
-        let pre = body.subrange(0, lo); let mid = body.subrange(lo, hi); let post = body.subrange(hi, body.len() as int);
-        assert(body =~= pre + mid + post);
-        lemma_without_all(pre, ' '); lemma_without_all(post, ' ');
-        lemma_without_cat(pre, mid, ' '); lemma_without_cat(pre + mid, post, ' ');
-        assert(without_char(body, ' ') =~= without_char(mid, ' '));
+        lemma_unblank_trim(body);
     } else {
         lemma_split_once_none(body, '#');
     }
@@ -302,8 +348,8 @@ pub proof fn lemma_spelling_reaches(env: Env, i: int, long: bool, v: Seq<char>)
     lemma_first_match_is(p, i);
 }
 // the TOML key of setting i, in the table the documentation puts it in, any of the documented line shapes
-pub proof fn lemma_toml_reaches(env: Env, words: Seq<Seq<char>>, i: int, a: nat, b: nat, c: nat, d: nat, q: int, v: Seq<char>, comment: Option<Seq<char>>)
-    requires in_tbl(i), plain_value(v), 0 <= q <= 2,
+pub proof fn lemma_toml_reaches(env: Env, words: Seq<Seq<char>>, i: int, a: Seq<char>, b: Seq<char>, c: Seq<char>, d: Seq<char>, q: int, v: Seq<char>, comment: Option<Seq<char>>)
+    requires in_tbl(i), plain_value(v), 0 <= q <= 2, pads(a, b, c, d),
     ensures
         file_step((s_table(i), words), toml_line(a, b, c, d, s_key(i), q, v, comment)) == (s_table(i), words.push(s_long(i) + eqs() + v)),
         apply_arg(env, s_long(i) + eqs() + v) == env.insert(s_var(i), v),
